@@ -312,6 +312,8 @@ class Builder:
             if len(n) > 2 and n[2] is not None:
                 return pt.Comment(n[1], E(n[2]))
             return pt.Comment(n[1])
+        if t == "pragma":
+            return pt.Pragma(E(n[2]), compiler_version=n[1])
         if t == "boxput":
             return pt.App.box_put(E(n[1]), E(n[2]))
         if t == "boxdel":
